@@ -23,7 +23,8 @@ def _port(rng, k):
     if kind < 0.3:
         n = rng.choice(NAMES)
         dev = rng.choice(["/dev/ttyACM%d" % k, "/dev/cu.usbmodem14%d1" % k])
-        desc = "EiBotBoard" + ("," + n if n or rng.random() < 0.3 else "")
+        # the name follows the comma verbatim: a blank after the comma, or at the end, belongs to the description
+        desc = "EiBotBoard" + ("," + rng.choice(["", "", "", " ", "  "]) + n + rng.choice(["", "", "", " "]) if n or rng.random() < 0.3 else "")
         hw = rng.choice(["USB VID:PID=04D8:FD92 LOCATION=20-%d" % k, "USB VID:PID=04D8:FD92 SER=%s LOCATION=1-%d" % (rng.choice(TAGS), k), "n/a"])
     elif kind < 0.55:
         dev = "COM%d" % rng.randint(1, 12)
